@@ -289,3 +289,6 @@ Proof.
   - rewrite (eol_past t file (e - 1)) by lia.
     pose proof (nls_bounds t file s) as B. rewrite nls_pos in B by lia. lia.
 Qed.
+
+Lemma find_term_some_z t c p : find_term t c = Some p -> Z.of_nat p < zlen c.
+Proof. intros F. apply find_term_some in F as (Lk & _). unfold zlen. lia. Qed.
